@@ -286,6 +286,13 @@ def rest_rules(ctx):
     from . import c13 as _c13
     reuse(ctx, _c13.run, ("C13.flow", "C13.nomut"), "C10rt", "flow round-trip rules shared with C13: the log-proposal values a restored population carries were computed with the flow (and its data transform) that was saved; "
           "a flow that reloads -- or is saved a second time -- without its transform is a different function of the same coordinates")
+    from . import c05 as _c05
+    reuse(ctx, _c05.share_rule, ("C05.share",), "C10share", "sharing rule shared with C05: a proposal whose data transform is refitted by another component during the run no longer gives, for the "
+          "coordinates of a recorded population, the log_q stored with them")
+    from . import c15 as _c15
+    reuse(ctx, _c15.run, ("C15.carry",), "C10carry", "carry rule shared with C15: a row selection / concatenation that drops the set's dtype rebuilds coordinates and cached densities in the namespace's "
+          "default width after they were evaluated in the requested one, so the stored values are no longer those of the stored coordinates",
+          only=lambda f: ("__getitem__" in f.key or "concatenate" in f.key) and f.key.rsplit(" | ", 1)[-1] in ("dtype", "x", "log_likelihood", "log_prior", "log_q"))
     reuse(ctx, lambda c: c14.run(c, shared=False), ("C14.flow",), "C10file", "stale-flow rule shared with C14: after a resume log_q is recomputed with the flow stored in the file")
 
     # ------------------------------------------------------------ who may write x
